@@ -588,7 +588,14 @@ func (s *Stream) CloseRead() {
 	} else {
 		s.inclosed.set()
 	}
-	discarded := s.in.end - s.in.start
+	// Drop the fast-path read buffer: it refers to the data being discarded.
+	// Read has already returned flow control credit for its bytes.
+	s.inbufmu.Lock()
+	inbuf := int64(len(s.inbuf))
+	s.inbuf = nil
+	s.inbufoff = 0
+	s.inbufmu.Unlock()
+	discarded := s.in.end - s.in.start - inbuf
 	s.in.discardBefore(s.in.end)
 	s.inUnlock()
 	s.conn.handleStreamBytesReadOffLoop(discarded) // must be done with ingate unlocked
